@@ -16,7 +16,10 @@ def _make(rng, tif, convertible=False, scale=1):
         if padded:
             lay.pad_modulo = rng.choice([2, 4])      # physical records padded with nulls to an even / 4 byte file position
         data, fm = glis.random_file(rng, allow_be=False, two_files_p=0.2 if scale == 1 else 0.9, layout=lay,
-                                    concurrent_p=0.0 if convertible else 0.15)   # normal + alternate data in one logical file
+                                    concurrent_p=0.0 if convertible else 0.15,   # normal + alternate data in one logical file
+                                    # every record type the format lists that has no internal format of its own, around and between the others
+                                    profile=None if convertible else {'misc_types': [42, 47, 65, 85, 86, 95, 96, 97, 100, 101, 102, 224, 225, 227, 232, 234],
+                                                                      'misc_between_p': 0.1, 'eof_marker_p': 0.05})
         # the property excludes TIF-marked files whose first physical record is exactly 276 bytes (they share the BIT signature)
         if tif and fm.prs and fm.prs[0]['end'] - fm.prs[0]['start'] - 12 == 276:
             continue
